@@ -12,6 +12,9 @@ pub fn exec_oracle(kind: &str, fields: &[&str]) -> String {
         "S_C04" => oracle_c04(fields),
         "S_C07" => oracle_c07(fields),
         "S_C07M" => oracle_c07m(fields),
+        "S_C18" => oracle_c18(fields),
+        "S_C18R" => oracle_c18r(fields),
+        "S_C18T" => oracle_c18t(fields),
         "S_C17" => oracle_c17(fields),
         "S_C17E" => oracle_c17e(fields),
         "S_C16" => oracle_c16(fields),
@@ -1056,6 +1059,163 @@ fn oracle_c17e(fields: &[&str]) -> String {
         if parse_proj(once).ok().as_deref() != Some(once.as_str()) {
             return format!("oracle FAIL translation not idempotent on {:?}: {:?}", t, once);
         }
+    }
+    "oracle pass".to_string()
+}
+
+// ----- C18: handles stay valid, operators never change -----------------------------------------
+
+fn oracle_c18(fields: &[&str]) -> String {
+    let probe = vec![Coor4D([1., 2., 3., 4.]), Coor4D([-5., 0.25, 1e3, 2020.])];
+    // behaviour fingerprint of every handle at the time it was made
+    let mut prints: Vec<String> = vec![];
+    let mut seen: Vec<OpHandle> = vec![];
+    // the registrations so far, for the resolution order: a user-registered operator (name without
+    // colon) wins over a built-in of the same name, for definitions instantiated afterwards
+    let calls: Vec<String> = fields[1..].iter().map(|s| s.to_string()).collect();
+    let mut call_index = 0usize;
+    let mut handles_before = 0usize;
+    let mut users: std::collections::BTreeMap<String, String> = std::collections::BTreeMap::new();
+    let (_, problem) = crate::exec::run_history(fields[0], &fields[1..], |ctx, handles| {
+        let call = calls[call_index].clone();
+        call_index += 1;
+        let parts: Vec<&str> = call.split('|').collect();
+        if parts[0] == "R" {
+            users.insert(unescape(parts[1]), parts[2].to_string());
+        }
+        let made_one = handles.len() > handles_before;
+        handles_before = handles.len();
+        if parts[0] == "O" && made_one {
+            let def = unescape(parts[1]);
+            if !def.contains('|') && !def.contains('<') && !def.contains('>') {
+                let words: Vec<&str> = def.split_whitespace().collect();
+                let name = words.iter().find(|w| !["inv", "omit_fwd", "omit_inv"].contains(w)).copied().unwrap_or("");
+                let inv = words.iter().any(|w| *w == "inv" || *w == "inv=true");
+                if !name.contains(':') && !name.contains('=') {
+                    if let Some(tag) = users.get(name) {
+                        let delta = if tag == "u:add2" { 2.0 } else { 3.0 } * if inv { -1.0 } else { 1.0 };
+                        let mut d = vec![Coor4D([10., 0., 0., 0.])];
+                        let h = *handles.last().unwrap();
+                        let _ = ctx.apply(h, Fwd, &mut d);
+                        if d[0][0] != 10.0 + delta {
+                            return Some(format!("{:?} did not resolve to the user-registered operator {} ({}): x became {}", def, name, tag, d[0][0]));
+                        }
+                    }
+                }
+            }
+        }
+        let fp = |h: OpHandle| -> String {
+            let mut out = String::new();
+            for dir in [Fwd, Inv] {
+                let mut d = probe.clone();
+                let n = ctx.apply(h, dir, &mut d);
+                out += &format!("{:?}:{};", n.ok(), dump_data(&d));
+            }
+            out += &format!("{:?};", ctx.steps(h).ok());
+            for i in 0..3 {
+                out += &format!("{:?};", ctx.params(h, i).ok().map(|p| crate::wire::dump_parsed(&p)));
+            }
+            out
+        };
+        for (k, h) in handles.iter().enumerate() {
+            if k >= prints.len() {
+                if seen.contains(h) {
+                    return Some(format!("handle {k} was handed out before"));
+                }
+                seen.push(*h);
+                prints.push(fp(*h));
+            } else if fp(*h) != prints[k] {
+                return Some(format!("operator behind handle {k} changed after a later call"));
+            }
+        }
+        // an unknown handle is an error
+        let mut d = probe.clone();
+        if ctx.apply(OpHandle::default(), Fwd, &mut d).is_ok() {
+            return Some("a handle never handed out was accepted".to_string());
+        }
+        None
+    });
+    match problem {
+        Some(p) => format!("oracle FAIL {p}"),
+        None => "oracle pass".to_string(),
+    }
+}
+
+fn oracle_c18r(fields: &[&str]) -> String {
+    let content = unescape(fields[0]);
+    let suffix = unescape(fields[1]);
+    let expect_found = fields[2] == "1";
+    crate::exec::with_register(&content, |ctx| {
+        let got = ctx.get_resource(&format!("gvreg:{suffix}"));
+        if got.is_ok() != expect_found {
+            return format!("oracle FAIL item {:?} {} in a register that {} it", suffix, if got.is_ok() { "found" } else { "not found" }, if expect_found { "has" } else { "does not have" });
+        }
+        if let Ok(t) = got {
+            let want = match suffix.as_str() {
+                "one" => "addone",
+                "two" => "addone | addone inv",
+                "one_more" => "noop",
+                _ => "",
+            };
+            if !want.is_empty() && t != want {
+                return format!("oracle FAIL item {:?} resolves to {:?}, the file says {:?}", suffix, t, want);
+            }
+            // run-time registrations take precedence
+            let mut c2 = Plain::default();
+            c2.register_resource(&format!("gvreg:{suffix}"), "noop inv");
+            if c2.get_resource(&format!("gvreg:{suffix}")).ok().as_deref() != Some("noop inv") {
+                return "oracle FAIL a run-time registration did not take precedence over the file".to_string();
+            }
+        }
+        "oracle pass".to_string()
+    })
+}
+
+
+/// threads sharing one context for `apply` (and other contexts clearing the shared grid cache
+/// meanwhile) get the results of a sequential application
+fn oracle_c18t(fields: &[&str]) -> String {
+    let def = unescape(fields[0]);
+    let data = parse_data(fields[1]);
+    let mut ctx = Plain::new();
+    let op = match ctx.op(&def) {
+        Ok(op) => op,
+        Err(e) => return format!("oracle skip not instantiable ({})", err_class(&e)),
+    };
+    let mut reference = data.clone();
+    let nref = ctx.apply(op, Fwd, &mut reference).unwrap_or(usize::MAX);
+    let want = dump_data(&reference);
+    let ctx_ref = &ctx;
+    let problems: Vec<String> = std::thread::scope(|s| {
+        let mut hs = vec![];
+        for t in 0..8 {
+            let data = data.clone();
+            let want = want.clone();
+            hs.push(s.spawn(move || {
+                for round in 0..20 {
+                    if t == 7 && round % 5 == 0 {
+                        // another context instantiating, applying and clearing the shared grid cache
+                        Plain::clear_grids();
+                        let mut other = Plain::new();
+                        if let Ok(o2) = other.op("gridshift grids=test.datum,@null") {
+                            let mut d2 = vec![Coor4D([0.2, 0.96, 0., 0.])];
+                            let _ = other.apply(o2, Fwd, &mut d2);
+                        }
+                        Plain::clear_grids();
+                    }
+                    let mut d = data.clone();
+                    let n = ctx_ref.apply(op, Fwd, &mut d).unwrap_or(usize::MAX);
+                    if n != nref || dump_data(&d) != want {
+                        return Some(format!("thread {t} round {round}: result differs from the sequential one"));
+                    }
+                }
+                None
+            }));
+        }
+        hs.into_iter().filter_map(|h| h.join().unwrap_or(Some("thread panicked".to_string()))).collect()
+    });
+    if let Some(p) = problems.first() {
+        return format!("oracle FAIL {p} ({def})");
     }
     "oracle pass".to_string()
 }
